@@ -496,6 +496,24 @@ class IdMonitor(Monitor):
             self.R.append(named)
         elif k == "redo" and rec.out.ret is True:
             named = self.R.pop() if self.R else None
+        # the id feature may be switched off for a while (its values are then not maintained
+        # and not judged); switching it on with recomputation is judged like a construction
+        fkey = t.features.tracklet_key if self.which == "track" else t.features.lineage_key
+        if fkey not in t.annotators.features:
+            self.count("steps-while-feature-disabled")
+            self.ok = False
+            return out
+        if k == "features" and fkey in (rec.op.get("enable") or []) and rec.out.ok:
+            self.evals += 1
+            p = self._inv(t)
+            self.ok = not p
+            self.count("re-enabled-with-recomputation")
+            if p:
+                out.append(violation(
+                    f"{self.which}-partition",
+                    f"after {rec.op} (bulk recomputation): " + "; ".join(m for _, m in p)[:500],
+                    f"{cid}/partition/features/recompute"))
+            return out
         # partition oracle
         self.evals += 1
         p = self._inv(t)
@@ -677,6 +695,7 @@ class SegMonitor(Monitor):
     name = "seg"
 
     def start(self, sess):
+        self.tl = O.Timeline(seg_digest_of(sess.tracks))
         p = checks.seg_bijection(sess.tracks)
         self.ok = not p
         if p:
@@ -714,6 +733,24 @@ class SegMonitor(Monitor):
                                  f" ({'ok' if rec.out.ok else rec.out.exc_type}): {p[0][1]}",
                                  f"C07/{p[0][0]}/{OP2CLS[k]}/{sig(rec)}"))
         self.ok = not p
+        # every undo / redo restores the array of the state it steps to (not only the undo
+        # that directly follows a stroke)
+        if not out:
+            if k == "ctrl":
+                for st in ctrl_steps(rec):
+                    self.tl.edit(st["seg"])
+            elif k in EDIT_OPS and rec.out.ok:
+                self.tl.edit(rec.post["seg"])
+            elif k in ("undo", "redo") and rec.out.ok:
+                moved = self.tl.undo() if k == "undo" else self.tl.redo()
+                self.evals += 1
+                self.count("array-vs-timeline-comparisons")
+                if rec.post["seg"] != self.tl.current:
+                    out.append(violation(
+                        "undo-restores-array", f"after {k} (model: "
+                        f"{'stepped' if moved else 'nothing to step to'}) the label array is not "
+                        f"the one of the state stepped to (cursor {self.tl.cursor}/"
+                        f"{len(self.tl.states)})", f"C07/array-timeline/{k}/{sig(rec)}"))
         if k == "paint" and rec.out.ok and not out:
             info = rec.out.info
             lab, over = self.stroke_class(rec)
@@ -1050,6 +1087,14 @@ class FeatureSwitchMonitor(Monitor):
             for c, m in checks.lineage_partition(t):
                 out.append(violation("values", f"{where}: {lk}: {m}", f"C10/values/{lk}"))
                 break
+        if "n_children" in keys:
+            self.evals += 1
+            for n in t.graph.nodes:
+                if t.get_node_attr(n, "n_children") != t.graph.out_degree(n):
+                    out.append(violation("values", f"{where}: n_children of node {n} is "
+                                         f"{t.get_node_attr(n, 'n_children')!r}, out-degree "
+                                         f"{t.graph.out_degree(n)}", "C10/values/n_children"))
+                    break
         if t.segmentation is not None:
             ik = checks.iou_key(t)
             rp = [k for k in keys if k not in (tk, lk, ik)]
@@ -1230,6 +1275,12 @@ class FeatureSwitchMonitor(Monitor):
                     break
                 self.count("frozen-comparisons", len(snap))
         return out
+
+
+def seg_digest_of(tracks):
+    from .canon import seg_digest
+
+    return seg_digest(tracks.segmentation)
 
 
 def norm_(v):
